@@ -29,9 +29,15 @@ for d in sorted(glob.glob(ROOT + "/*/m*")):
     }
     json.dump(meta, open(os.path.join(d, "meta.json"), "w"), indent=1)
     res = (caught or {}).get("results", [])
-    cell = "; ".join(f"{r['check']} quick: " + ("**caught** (" + ", ".join(f"`{s}`" for s in r["signatures"][:2]) + ")" if r["exit"] == 1 else ("inconclusive (exit 2)" if r["exit"] == 2 else "missed")) for r in res) or "not run yet"
+    def outcome(r):
+        if r["exit"] == 1:
+            return "**caught** (" + ", ".join(f"`{s}`" for s in r["signatures"][:2]) + ")"
+        if r["exit"] == 2:
+            return "inconclusive (exit 2)"
+        return "missed" if r["check"] == pid else "silent (check of another property)"
+    cell = "; ".join(f"{r['check']} quick: " + outcome(r) for r in res) or "not run yet"
     site = ", ".join(os.path.basename(f) for f in (agent.get("files_touched") or []))
-    summ = (agent.get("summary") or "").split(". ")[0][:230]
+    summ = (agent.get("summary") or "").split(". ")[0][:230].replace("|", "/")
     conf = "yes" if kept else ("pending" if not confirm else "NO: " + json.dumps({k: v for k, v in confirm.items() if k.endswith("exit")}))
     rows.append(f"| {pid}/{m} | {site} | {summ} | {conf} | {cell}{' — ' + notes if notes else ''} |")
 table = "| change | site | what it does | confirmed (demo passes clean / fails changed / full suite passes) | result of the checks (VERIF_SEED=1) |\n|---|---|---|---|---|\n" + "\n".join(rows)
